@@ -1034,7 +1034,16 @@ class FlowIRExperimentConfiguration:
         # VV: Validate after replicating because of `replica` variables
         try:
             if (self._concrete != FlowIRExperimentConfiguration._NoFlowIR) or (len(out_errors) == 0):
-                out_errors.extend(self._concrete.validate(top_level_folders=self.top_level_folders))
+                known = set(str(e) for e in out_errors)
+                if self._is_primitive is False and self._unreplicated != FlowIRExperimentConfiguration._NoFlowIR:
+                    # VV: the replicated FlowIR is an instance for ONE platform: unknown sections, unknown scope labels
+                    # and the sections of the other platforms are gone from it. Validate the document as written too.
+                    for e in self._unreplicated.validate(top_level_folders=self.top_level_folders):
+                        if str(e) not in known:
+                            known.add(str(e))
+                            out_errors.append(e)
+                out_errors.extend(e for e in self._concrete.validate(top_level_folders=self.top_level_folders)
+                                  if str(e) not in known)
         except Exception as e:
             self.log.debug(f"Unexpected error while validating {e} -- traceback:\n{traceback.format_exc()}")
             out_errors.append(e)
